@@ -89,6 +89,50 @@ impl<BF: PrimeField64, EF: ExtensionField<BF>> p3_circuit::ops::HintExecutor<EF>
     }
 }
 
+/// Hint emitting the canonical bits, except that bits 0 and 1 carry upper extension limbs that
+/// cancel in every linear check: b0 += t*X - t*X^2, b1 += -(t/2)*X + (t/2)*X^2 (so b0 + 2*b1 and the
+/// sum of the upper limbs of each bit are unchanged). Needs extension degree >= 3 and >= 2 bits.
+#[derive(Debug, Clone)]
+pub struct LimbCancelBitsHint<BF> {
+    pub t: u64,
+    pub fired: Arc<AtomicUsize>,
+    pub _p: core::marker::PhantomData<BF>,
+}
+impl<BF: PrimeField64, EF: ExtensionField<BF>> p3_circuit::ops::HintExecutor<EF> for LimbCancelBitsHint<BF> {
+    fn execute(&self, inputs: &[WitnessId], outputs: &[WitnessId], witness: &mut [Option<EF>]) -> Result<(), CircuitError> {
+        let x = witness[inputs[0].0 as usize].ok_or(CircuitError::WitnessNotSet { witness_id: inputs[0] })?;
+        let c0 = <EF as BasedVectorSpace<BF>>::as_basis_coefficients_slice(&x)[0].as_canonical_u64();
+        let d = <EF as BasedVectorSpace<BF>>::DIMENSION;
+        let fire = d >= 3 && outputs.len() >= 2;
+        let basis = |i: usize| -> EF {
+            let mut v = vec![BF::ZERO; d];
+            v[i] = BF::ONE;
+            EF::from_basis_coefficients_slice(&v).unwrap()
+        };
+        for (i, o) in outputs.iter().enumerate() {
+            let bit = if i < 64 { (c0 >> i) & 1 == 1 } else { false };
+            let mut v = EF::from_bool(bit);
+            if fire && i < 2 {
+                let t = BF::from_u64(self.t.max(1));
+                let half = t * BF::TWO.inverse();
+                let k = if i == 0 { t } else { -half };
+                v += EF::from(k) * basis(1) - EF::from(k) * basis(2);
+            }
+            let slot = &mut witness[o.0 as usize];
+            if slot.is_none() {
+                *slot = Some(v);
+            }
+        }
+        if fire {
+            self.fired.fetch_add(1, Ordering::SeqCst);
+        }
+        Ok(())
+    }
+    fn boxed(&self) -> Box<dyn p3_circuit::ops::HintExecutor<EF>> {
+        Box::new(self.clone())
+    }
+}
+
 /// Hint emitting coefficients `c0 - delta*X, c1 + delta, c2, ...` (same recomposition, c0 not in the base field).
 #[derive(Debug, Clone)]
 pub struct MassMoveHint<BF> {
@@ -178,6 +222,11 @@ macro_rules! c06_cfg {
                     if fault.kind == "hint_bits" && is_bits {
                         if hint_idx == fault.call {
                             *executor = Box::new(NonCanonicalBitsHint::<BF> { k: fault.k, fired: fired.clone(), _p: Default::default() });
+                        }
+                        hint_idx += 1;
+                    } else if fault.kind == "hint_bits_limbs" && is_bits {
+                        if hint_idx == fault.call {
+                            *executor = Box::new(LimbCancelBitsHint::<BF> { t: fault.k, fired: fired.clone(), _p: Default::default() });
                         }
                         hint_idx += 1;
                     } else if fault.kind == "hint_coeffs" && !is_bits && outputs.len() == U::D {
@@ -288,6 +337,11 @@ pub fn gadget_case<U: CircuitUni>(p: &crate::gprog::Program, fault: &Fault, seed
             if fault.kind == "hint_bits" && is_bits {
                 if hint_idx == fault.call {
                     *executor = Box::new(NonCanonicalBitsHint::<U::BF> { k: fault.k, fired: fired.clone(), _p: Default::default() });
+                }
+                hint_idx += 1;
+            } else if fault.kind == "hint_bits_limbs" && is_bits {
+                if hint_idx == fault.call {
+                    *executor = Box::new(LimbCancelBitsHint::<U::BF> { t: fault.k, fired: fired.clone(), _p: Default::default() });
                 }
                 hint_idx += 1;
             } else if fault.kind == "hint_coeffs" && !is_bits && outputs.len() == d {
@@ -475,6 +529,7 @@ fn gadget_run<U: CircuitUni>(ctx: &Ctx, idx: u64, out: &mut RunOut) {
         for f in [
             Fault { kind: "hint_bits".into(), call: 0, mode: 0, k: 1 },
             Fault { kind: "hint_bits".into(), call: 0, mode: 0, k: 2 },
+            Fault { kind: "hint_bits_limbs".into(), call: 0, mode: 0, k: 1 + rng.below(1000) },
             Fault { kind: "hint_coeffs".into(), call: 0, mode: 0, k: 1 + rng.below(1000) },
         ] {
             let Ok(o) = gadget_case::<U>(&p, &f, seed) else { continue };
@@ -610,6 +665,7 @@ pub fn one_run(ctx: &Ctx, prop: &str, idx: u64, out: &mut RunOut) {
     } else {
         for call in 0..4usize {
             plans.push(Fault { kind: "hint_bits".into(), call, mode: 0, k: 1 });
+            plans.push(Fault { kind: "hint_bits_limbs".into(), call, mode: 0, k: 1 + rng.below(1000) });
             plans.push(Fault { kind: "hint_coeffs".into(), call, mode: 0, k: 1 + rng.below(1000) });
         }
     }
